@@ -616,6 +616,18 @@ func (p *Prog) effectSummary(fn *ssa.Function) []string {
 		var gs []string
 		for _, e := range DomEdges(b) {
 			iff := e.From.Instrs[len(e.From.Instrs)-1].(*ssa.If)
+			// a guard hidden in a boolean helper (isNothingToDivide(p, d)): the conditions that hold
+			// whenever the helper gives this answer, with the arguments substituted
+			if atoms, okA := p.helperAtoms(iff.Cond, e.Succ == 0); okA {
+				for _, a := range atoms {
+					ga := cc.canonCond(a.s, a.truth)
+					if strings.Contains(ga, "P2 == nil") || strings.Contains(ga, "nil == P2") || strings.Contains(ga, "P2 != nil") || strings.Contains(ga, "nil != P2") {
+						continue
+					}
+					gs = append(gs, ga)
+				}
+				continue
+			}
 			g := cc.canonCond(p.Sym(iff.Cond), e.Succ == 0)
 			// declared difference: nil-map handling (v1 allocates, v2 returns)
 			if strings.Contains(g, "P2 == nil") || strings.Contains(g, "nil == P2") || strings.Contains(g, "P2 != nil") || strings.Contains(g, "nil != P2") {
@@ -680,4 +692,106 @@ func checkA4(c *Ctx, p1 *Prog, f1 *ssa.Function, p2 *Prog, f2 *ssa.Function, nam
 		diffs = append(diffs[:4], fmt.Sprintf("... %d more", len(diffs)-4))
 	}
 	c.R.Check(len(diffs) == 0, "A4", "pair:"+name, p2.Pos(f2.Pos()), fmt.Sprintf("%d summary entries agree", len(s2)), "the v1 and v2 implementations differ: "+strings.Join(diffs, " ;; "))
+}
+
+type condAtom struct {
+	s     *Sym
+	truth bool
+}
+
+// helperAtoms: cond (taken with the given truth) is the answer of a side-effect free boolean
+// product helper `return a || b` / `return a && b` / `return a`; it returns the conditions that
+// hold on every path on which the helper gives that answer (empty with ok=false when the answer is
+// a disjunction), rendered over the caller's values.
+func (p *Prog) helperAtoms(cond ssa.Value, truth bool) ([]condAtom, bool) {
+	base, neg := condOf(cond)
+	if neg {
+		truth = !truth
+	}
+	call, ok := base.(*ssa.Call)
+	if !ok {
+		return nil, false
+	}
+	fn := p.Callee(call)
+	if fn == nil || !p.IsProduct(fn) || !returnsBoolOnly(fn) || len(fn.Blocks) > 6 {
+		return nil, false
+	}
+	// purity: no stores, sends, calls of impure functions
+	for _, b := range fn.Blocks {
+		for _, in := range b.Instrs {
+			switch x := in.(type) {
+			case *ssa.Store, *ssa.MapUpdate, *ssa.Send, *ssa.Go, *ssa.Defer, *ssa.Select, *ssa.Panic:
+				return nil, false
+			case *ssa.Call:
+				if bi, isB := x.Call.Value.(*ssa.Builtin); !isB || (bi.Name() != "len" && bi.Name() != "cap") {
+					return nil, false
+				}
+			}
+		}
+	}
+	var rets []*ssa.Return
+	for _, b := range fn.Blocks {
+		if r, isRet := b.Instrs[len(b.Instrs)-1].(*ssa.Return); isRet && b != fn.Recover {
+			if len(r.Results) != 1 {
+				return nil, false
+			}
+			rets = append(rets, r)
+		}
+	}
+	if len(rets) == 0 {
+		return nil, false
+	}
+	mk := func(v ssa.Value, t bool) condAtom {
+		b2, n2 := condOf(v)
+		if n2 {
+			t = !t
+		}
+		return condAtom{p.substParams(call, fn, p.Sym(b2)), t}
+	}
+	pathAtoms := func(b *ssa.BasicBlock) []condAtom {
+		var out []condAtom
+		for _, e := range DomEdges(b) {
+			iff := e.From.Instrs[len(e.From.Instrs)-1].(*ssa.If)
+			out = append(out, mk(iff.Cond, e.Succ == 0))
+		}
+		return out
+	}
+	var contributing [][]condAtom
+	for _, ret := range rets {
+		rv := ret.Results[0]
+		if ph, isPhi := rv.(*ssa.Phi); isPhi {
+			for i, ev := range ph.Edges {
+				pred := ph.Block().Preds[i]
+				atoms := pathAtoms(pred)
+				// the edge into the phi block may itself be conditional
+				if iff, isIf := pred.Instrs[len(pred.Instrs)-1].(*ssa.If); isIf {
+					for k, su := range pred.Succs {
+						if su == ph.Block() && pred.Succs[1-k] != ph.Block() {
+							atoms = append(atoms, mk(iff.Cond, k == 0))
+						}
+					}
+				}
+				if c, isC := ev.(*ssa.Const); isC {
+					if (constString(c) == "true") != truth {
+						continue
+					}
+					contributing = append(contributing, atoms)
+					continue
+				}
+				contributing = append(contributing, append(atoms, mk(ev, truth)))
+			}
+			continue
+		}
+		if c, isC := rv.(*ssa.Const); isC {
+			if (constString(c) == "true") == truth {
+				contributing = append(contributing, pathAtoms(ret.Block()))
+			}
+			continue
+		}
+		contributing = append(contributing, append(pathAtoms(ret.Block()), mk(rv, truth)))
+	}
+	if len(contributing) != 1 {
+		return nil, false
+	}
+	return contributing[0], true
 }
